@@ -8,6 +8,7 @@
 mod alloc;
 mod entry;
 mod gen;
+mod golden;
 mod harness;
 mod hostile;
 mod minimise;
@@ -131,6 +132,14 @@ fn main() {
             let prop = props::find(&rec.property).unwrap_or_else(|| harness_error("unknown property in replay file"));
             let out = PathBuf::from(arg_val(&args, "--out").unwrap_or_else(|| "/verif/work/replay".to_string()));
             std::process::exit(runner::replay_inner(prop.as_ref(), &rec, &out));
+        }
+        "dump-ports" => {
+            // snapshot of the definitions table's default ports (golden data, committed)
+            let mut m = std::collections::BTreeMap::new();
+            for (id, g) in gamedig::GAMES.entries() {
+                m.insert(id.to_string(), g.default_port);
+            }
+            println!("{}", serde_json::to_string_pretty(&m).unwrap());
         }
         "list" => {
             for p in props::all() {
